@@ -55,6 +55,8 @@ impl Page {
             if i == self.len() {
                 break res;
             }
+            #[cfg(swiftness_verif)]
+            swiftness_transcript::verif::tick("air.page_product", 1);
             let current = &self[i];
 
             res *= z - (current.address + alpha * current.value);
